@@ -11,7 +11,7 @@ from fractions import Fraction
 
 import z3
 
-from . import theory
+from . import seqs, theory
 from .values import (BoundBuiltin, ClassV, EnumV, ExcV, ExtV, FlagV, FuncV, InterpError, LambdaV,
                      ModV, Opaque, SObj, SymFloat, Unsupported, as_int, as_z3bool, as_z3int,
                      as_z3real, is_boollike, is_fraclike, is_intlike, is_sym_bool, is_sym_int,
@@ -27,6 +27,8 @@ class Intrinsics:
 
     # ------------------------------------------------------------ isinstance
     def isinstance(self, P, v, t) -> bool:
+        if isinstance(v, seqs.KINDS):
+            return seqs.isinstance_hook(P, v, t)
         if isinstance(t, tuple):
             return any(self.isinstance(P, v, x) for x in t)
         if t is None:
@@ -139,6 +141,8 @@ class Intrinsics:
             return len(v)
         if isinstance(v, SObj):
             return P.call_method(v, '__len__', [], {})
+        if isinstance(v, seqs.KINDS):
+            return seqs.seq_len(P, v)
         raise Unsupported(f'len of {v!r}')
 
     def _minmax(self, P, args, kwargs, is_min):
@@ -252,7 +256,9 @@ class Intrinsics:
 
     def b_range(self, P, *args):
         if any(is_z3(a) for a in args):
-            raise Unsupported('symbolic range (needs a loop invariant)')
+            if len(args) > 2 or not all(is_intlike(a) for a in args):
+                raise Unsupported('symbolic range with a step')
+            return seqs.SymRange(0, as_int(args[0])) if len(args) == 1 else seqs.SymRange(as_int(args[0]), as_int(args[1]))
         return range(*args)
 
     def b_enumerate(self, P, it, start=0):
@@ -563,6 +569,8 @@ class Intrinsics:
         return recv.endswith(x)
 
     def m_str_join(self, P, recv, xs):
+        if isinstance(xs, seqs.SymSeq):
+            return Opaque('str')        # text of a message: not modelled
         xs = P.iterate(xs)
         if all(isinstance(x, str) for x in xs):
             return recv.join(xs)
@@ -650,6 +658,12 @@ class Intrinsics:
         except MergeAbort:
             raise InterpError(f'ite of incompatible values {a!r}, {b!r}')
 
+    def s_recursive(self, P, fn):
+        return fn
+
+    def s_uninterpreted(self, P, fn):
+        return fn
+
     def s_is_none(self, P, v):
         return v is None
 
@@ -669,6 +683,8 @@ class Intrinsics:
         return simp(z3.And(rs)) if rs else True
 
     def s_cls_name(self, P, v):
+        if isinstance(v, seqs.KINDS):
+            return seqs.cls_name(P, v)
         if isinstance(v, SObj):
             return v.cls.name
         if isinstance(v, (EnumV, FlagV)):
